@@ -152,7 +152,7 @@ def run_case(case):
     nt = contended(log)
     if nt:
         labels.add("contended")
-    return outcome(True, nontrivial=nt, labels=labels, stats={"schedules": 1, "steps": sched.step, "switches": sched.switches})
+    return outcome(True, nontrivial=nt, labels=labels, stats={"schedules": 1, "steps": sched.step, "switches": sched.switches, "infeasible": sched.infeasible})
 
 
 # ------------------------------------------------------------------------------------------ asyncio
@@ -270,7 +270,13 @@ def extra(tier, seed, shard, nshards):
         # every single pre-emption (any line of the package); every pair of pre-emptions at lines of the dispatch code
         # (engines/*.py, event.py, StateMachine.send) - thorough: pairs over every line for the smallest configuration
         disp = [s_ for s_, w, name in names if is_dispatch(name)]
+        disp_set = set(disp) if not (tier == "thorough" and cfg == configs[0]) else set(range(1, n + 1))
         all_pairs = tier == "thorough" and cfg == configs[0]
+
+        # a pre-emption inside a short library-internal critical section makes the other sender block (the scheduler then
+        # gives the turn back): such steps are found by the single pre-emptions (every shard runs those that it needs) and
+        # are left out of the pairs
+        blocked_steps = set()
 
         def schedules():
             for a in range(1, n + 1):
@@ -284,10 +290,17 @@ def extra(tier, seed, shard, nshards):
 
         for sch in schedules():
             idx += 1
-            if idx % nshards != shard:
+            single = len(sch) == 1
+            if idx % nshards != shard and not (single and sch[0][0] in disp_set):
+                continue
+            if not single and (sch[0][0] in blocked_steps or sch[1][0] in blocked_steps):
                 continue
             case = dict(base, schedule=sch)
             out = run_case(case)
+            if single and out.get("stats", {}).get("infeasible"):
+                blocked_steps.add(sch[0][0])
+            if idx % nshards != shard:
+                continue  # (a single run only to learn whether the step is inside a critical section)
             total += 1
             yield case, out
             if not out["ok"]:
